@@ -484,6 +484,8 @@ type ErrorMsg struct {
 
 func NewErrorMsg() *ErrorMsg {
 	e := new(ErrorMsg)
+	e.Header = NewOfp13Header()
+	e.Header.Type = Type_Error
 	e.Data = *util.NewBuffer(make([]byte, 0))
 	return e
 }
@@ -497,6 +499,7 @@ func (e *ErrorMsg) Len() (n uint16) {
 }
 
 func (e *ErrorMsg) MarshalBinary() (data []byte, err error) {
+	e.Header.Length = e.Len()
 	data = make([]byte, int(e.Len()))
 	next := 0
 
